@@ -38,10 +38,21 @@ type verifNoEvents struct{}
 func (verifNoEvents) Produce(*networkevent.Event) {}
 func (verifNoEvents) Close() error               { return nil }
 
+// API-only harness file for C16: uses New, AddPending, DeletePending,
+// MovePendingToActive, DeleteActive, ActiveConns, Saturated, Blacklist,
+// Blacklisted, ClearBlacklist and the exported error values only.
+
+// ghost status of one (torrent, peer)
+const (
+	verifNone    = 0
+	verifPending = 1
+	verifActive  = 2
+)
+
 // ghost entry of one (torrent, peer)
 type verifGhostEntry struct {
-	status status // _uninit, _pending, _active
-	ver    int    // which connection object is active
+	status int // verifNone, verifPending, verifActive
+	ver    int // which connection object is active
 }
 
 type verifEnv struct {
@@ -85,43 +96,65 @@ func verifNewEnv(np int) *verifEnv {
 func (e *verifEnv) count(t int) int {
 	n := 0
 	for p := 0; p < e.np; p++ {
-		if e.g[t][p].status != _uninit {
+		if e.g[t][p].status != verifNone {
 			n++
 		}
 	}
 	return n
 }
 
-// checkState: real representation == ghost, and the statement's invariants.
+// checkState: what the public API shows == ghost. Active connections are
+// compared by identity (so a connection removed on behalf of a replaced, older
+// one is seen); pending entries are observed at the end (observePending).
 func (e *verifEnv) checkState() {
+	active := e.s.ActiveConns()
+	nActive := 0
+	ok := true
 	for t := 0; t < verifNT; t++ {
-		peers := e.s.conns[verifHash(t)]
-		verif.Assert("pending-plus-active-within-maximum", len(peers) <= e.max)
-		verif.Assert("entry-count-matches-model", len(peers) == e.count(t))
+		nt := 0
 		for p := 0; p < e.np; p++ {
-			en, ok := peers[verifPeer(p)]
-			g := e.g[t][p]
-			verif.Assert("presence-matches-model", ok == (g.status != _uninit))
-			if ok {
-				// one entry per (torrent, peer) with exactly one status: never both
-				verif.Assert("status-matches-model", en.status == g.status)
-				verif.Assert("status-is-pending-or-active", en.status == _pending || en.status == _active)
-				if g.status == _active {
-					verif.Assert("active-conn-matches-model", en.conn == e.conns[t][p][g.ver])
+			if e.g[t][p].status != verifActive {
+				continue
+			}
+			nActive++
+			nt++
+			found := 0
+			for _, c := range active {
+				if c == e.conns[t][p][e.g[t][p].ver] {
+					found++
 				}
 			}
+			verif.Assert("active-conn-is-the-one-activated-last", found == 1)
 		}
+		ok = verif.And(ok, e.count(t) <= e.max, e.s.Saturated(verifHash(t)) == (nt == e.max))
 	}
-	// public view
-	nActive := 0
+	verif.Assert("within-maximum-and-saturated-iff-active-at-maximum", ok)
+	verif.Assert("active-conns-view", len(active) == nActive)
+}
+
+// observePending (end of a history): MovePendingToActive with a fresh open
+// connection succeeds exactly for the (torrent, peer) pairs the ghost has
+// pending, so pending and active sets are disjoint and their union is the
+// ghost's, which is within the maximum.
+func (e *verifEnv) observePending() {
 	for t := 0; t < verifNT; t++ {
+		total := 0
 		for p := 0; p < e.np; p++ {
-			if e.g[t][p].status == _active {
-				nActive++
+			c := conn.VerifNewConn(verifHash(t), verifPeer(p))
+			err := e.s.MovePendingToActive(c)
+			switch e.g[t][p].status {
+			case verifPending:
+				verif.Assert("pending-entry-can-be-activated", err == nil)
+				total++
+			case verifActive:
+				verif.Assert("active-entry-is-not-also-pending", err != nil)
+				total++
+			default:
+				verif.Assert("absent-entry-cannot-be-activated", err != nil)
 			}
 		}
+		verif.Assert("pending-plus-active-within-maximum", total <= e.max)
 	}
-	verif.Assert("active-conns-view", len(e.s.ActiveConns()) == nActive)
 }
 
 func (e *verifEnv) addPending(t, p int, neighbors []int) {
@@ -129,7 +162,7 @@ func (e *verifEnv) addPending(t, p int, neighbors []int) {
 	mutual := 0
 	for _, q := range neighbors {
 		ns = append(ns, verifPeer(q))
-		if e.g[t][q].status != _uninit {
+		if e.g[t][q].status != verifNone {
 			mutual++
 		}
 	}
@@ -137,9 +170,9 @@ func (e *verifEnv) addPending(t, p int, neighbors []int) {
 	if err == nil {
 		verif.Reach("add-pending-accepted")
 		verif.Assert("accepted-only-below-capacity", e.count(t) < e.max)
-		verif.Assert("accepted-only-when-absent", e.g[t][p].status == _uninit)
+		verif.Assert("accepted-only-when-absent", e.g[t][p].status == verifNone)
 		verif.Assert("refused-when-too-many-mutual-connections", mutual <= e.mutual)
-		e.g[t][p] = verifGhostEntry{status: _pending}
+		e.g[t][p] = verifGhostEntry{status: verifPending}
 	} else {
 		verif.Cover("refused-capacity", err == ErrTorrentAtCapacity)
 		if e.inductive {
@@ -150,7 +183,7 @@ func (e *verifEnv) addPending(t, p int, neighbors []int) {
 
 func (e *verifEnv) deletePending(t, p int) {
 	e.s.DeletePending(verifPeer(p), verifHash(t))
-	if e.g[t][p].status == _pending {
+	if e.g[t][p].status == verifPending {
 		e.g[t][p] = verifGhostEntry{}
 	}
 }
@@ -162,18 +195,18 @@ func (e *verifEnv) moveToActive(t, p, v int) {
 	}
 	err := e.s.MovePendingToActive(c)
 	if err == nil {
-		verif.Assert("activated-only-from-pending", e.g[t][p].status == _pending)
+		verif.Assert("activated-only-from-pending", e.g[t][p].status == verifPending)
 		verif.Assert("activated-only-open-conn", !c.IsClosed())
-		e.g[t][p] = verifGhostEntry{status: _active, ver: v}
+		e.g[t][p] = verifGhostEntry{status: verifActive, ver: v}
 	}
 }
 
 func (e *verifEnv) deleteActive(t, p, v int) {
 	g := e.g[t][p]
 	e.s.DeleteActive(e.conns[t][p][v])
-	if g.status == _active && g.ver == v {
+	if g.status == verifActive && g.ver == v {
 		e.g[t][p] = verifGhostEntry{}
-	} else if g.status == _active {
+	} else if g.status == verifActive {
 		verif.Reach("delete-on-behalf-of-replaced-conn")
 		// checkState asserts the newer conn is still in place
 	}
@@ -217,51 +250,22 @@ func (e *verifEnv) connStep() {
 	e.checkState()
 }
 
-// setPre writes a pre-state entry directly into the representation.
-func (e *verifEnv) setPre(t, p, c int) {
-	if c == 0 {
-		return
-	}
-	h := verifHash(t)
-	if e.s.conns[h] == nil {
-		e.s.conns[h] = make(map[core.PeerID]entry)
-	}
-	if c == 1 {
-		e.g[t][p] = verifGhostEntry{status: _pending}
-		e.s.conns[h][verifPeer(p)] = entry{status: _pending}
-	} else {
-		e.g[t][p] = verifGhostEntry{status: _active, ver: c - 2}
-		e.s.conns[h][verifPeer(p)] = entry{status: _active, conn: e.conns[t][p][c-2]}
-	}
-}
-
 // VerifConnStateHistory: histories from the empty state (torrent 1 holds one
 // entry that must stay untouched).
 func VerifConnStateHistory() {
 	e := verifNewEnv(verifMaxNP)
-	e.setPre(1, 0, 1+verif.Choice("frame", 2))
+	// frame entry on torrent 1: pending, or active
+	e.addPending(1, 0, nil)
+	if verif.Choice("frame", 2) == 1 {
+		e.moveToActive(1, 0, 0)
+	}
+	frame := e.g[1][0]
 	k := verif.Bound("steps", 2, 4)
 	for i := 0; i < k; i++ {
 		e.connStep()
 	}
-}
-
-// VerifConnStateStepInductive: one step from every state of torrent 0 over 3
-// peers that satisfies the representation invariant (at most max entries,
-// each pending or active with one of its two connection objects, no empty
-// inner map). New() satisfies it, so this covers histories of any length over
-// this universe; torrents only interact through nothing (checked by the frame
-// entry of torrent 1).
-func VerifConnStateStepInductive() {
-	e := verifNewEnv(verifMaxNP)
-	e.inductive = true
-	for p := 0; p < e.np; p++ {
-		e.setPre(0, p, verif.Choice("pre", 2+verifNV))
-	}
-	verif.Assume(e.count(0) <= e.max)
-	e.setPre(1, 0, verif.Choice("frame", 3))
-	verif.Cover("pre-at-capacity", e.count(0) == e.max)
-	e.connStep()
+	verif.Assert("other-torrent-untouched", e.g[1][0] == frame)
+	e.observePending()
 }
 
 // VerifBlacklistHistory: blacklist / clear / clock advance; Blacklisted reports
@@ -269,7 +273,7 @@ func VerifConnStateStepInductive() {
 // torrent is cleared.
 func VerifBlacklistHistory() {
 	e := verifNewEnv(2)
-	k := verif.Bound("blacklist_steps", 4, 6)
+	k := verif.Bound("blacklist_steps", 3, 6)
 	for i := 0; i < k; i++ {
 		e.advance()
 		c := verif.Choice("blop", verifNT*e.np+verifNT)
